@@ -42,7 +42,7 @@ func (p Params) Validate() error {
 	// MaxDepositTax is only a cap (0 = no cap) and the execution layer may set it to any
 	// value independently of the rate, so every combination the running chain can reach
 	// must be importable again
-	if p.DepositTaxRate > 1e4 {
+	if p.DepositTaxRate >= 1e4 {
 		return fmt.Errorf("invalid deposit tax: DepositTaxRate(%d) MaxDepositTax(%d)",
 			p.DepositTaxRate, p.MaxDepositTax)
 	}
